@@ -36,6 +36,8 @@ def check(ctx, tier):
          [ctx.func("mixin.NPSIndexable.__getitem__")]
     tk.purity("C15.g", fs, "indexing does not modify the array or the caller's index", content_only=True)
     W.report(ctx, tk, "C15.h", fs)
+    from .. import hazards as _hz, scopes as _sc
+    _hz.generic(ctx, tk, "C15.z", _sc.scope(tk, "C15"))
     return {}
 
 
@@ -81,6 +83,26 @@ def lookups(ctx, tk):
         if tm.k == "sub":
             layout.searchsorted_row_lookup(ctx, "C15.b", f, tm.a[1], r.ast, "_events", key="position")
             viewrules.wrap_idiom(ctx, "C15.b", f, tm.a[1], r.ast)
+            # the searched positions: negative entries are wrapped element-wise (np.where), for arrays as well as scalars
+            pos = None
+            for x in walk(tm.a[1]):
+                if np_call(x, {"searchsorted"}) and len(x.a[1]) >= 2:
+                    pos = x.a[1][1]
+            if pos is not None:
+                whatw = "negative positions are wrapped by the length element-wise, in index arrays as well as for a single integer"
+                if any(np_call(a, {"where"}) for a in alts(pos)) or any(a.k == "bin" and a.a[0] == "%" for a in alts(pos)):
+                    ctx.holds("C15.b", f, whatw, node=r.ast, key="wrap-arrays", engine="E8")
+                else:
+                    scalar_only = False
+                    for a in alts(pos):
+                        if a.k == "bin" and a.a[0] == "+" and a.node is not None and fa.node_of(a.node) is not None:
+                            fs_ = facts_at(fa, fa.node_of(a.node))
+                            if any(t.k == "call" and call_name(t) == "isinstance" and truth for t, truth, _ in fs_):
+                                scalar_only = True
+                    plain = all(a.k == "param" for a in alts(pos))
+                    ctx.decide("C15.b", f, whatw, False if (scalar_only or plain) else None,
+                               "negative entries of an index array are not wrapped (%s): they all resolve to the last run" % ("the wrap is guarded by isinstance(idx, Number)" if scalar_only else "no wrap at all"),
+                               node=r.ast, key="wrap-arrays", engine="E8")
             okv = (attr_chain(tm.a[0]) or ("",))[-1] == "_values"
             ctx.decide("C15.b", f, "the element at a position is the value of the run containing it", True if okv else (False if (attr_chain(tm.a[0]) or ("",))[-1] == "_events" else None),
                        "reads %s" % (tm.a[0],), node=r.ast, key="values", engine="E5")
